@@ -455,3 +455,28 @@ def queue_init_modes(ctx, qual):
             except Unk as u:
                 out['unknown'].append(str(u))
     return out
+
+
+def interval_guard(tests, var, lo, hi):
+    """Does the disjunction of the guard tests reject exactly the values of `var` outside [lo, hi]?  Decided in the ordering
+    domain over the five consistent orderings of var against lo < hi (plus the three against lo == hi), whatever the spelling
+    (chained comparison, negated conjunction, two separate guards ...).  Returns 'ok', 'wrong' or 'unknown'; var / lo / hi are
+    spellings or tuples of equivalent spellings."""
+    from ..order import Terms, eval_cond, LT, EQ, GT
+    terms = Terms()
+    for sp, t in ((var, 'v'), (lo, 'lo'), (hi, 'hi')):
+        for x in ((sp,) if isinstance(sp, str) else sp):
+            terms.add(x, t)
+    cases = [  # (v?lo, v?hi, lo?hi) -> rejected
+        ((LT, LT, LT), True), ((EQ, LT, LT), False), ((GT, LT, LT), False), ((GT, EQ, LT), False), ((GT, GT, LT), True),
+        ((LT, LT, EQ), True), ((EQ, EQ, EQ), False), ((GT, GT, EQ), True)]
+    verdict = 'ok'
+    for (a, b, c), want in cases:
+        sigma = {('v', 'lo'): a, ('v', 'hi'): b, ('lo', 'hi'): c}
+        vals = [eval_cond(t, sigma, terms) for t in tests]
+        got = True if any(v is True for v in vals) else (False if all(v is False for v in vals) else None)
+        if got is None:
+            return 'unknown'
+        if got != want:
+            verdict = 'wrong'
+    return verdict
